@@ -34,8 +34,9 @@ def run(tier, seed):
     for mode, depth, focus in (("convert", 3, "FALSE"), ("props", 1, "FALSE")) + (() if quick else (("props", 2, "TRUE"),)):
         c = {"Mode": mode, "MaxDepth": depth, "Wide": wide, "Focus": focus}
         rep.add_mc("MC_FimSliverConv %s depth %d%s" % (mode, depth, " (focus)" if focus == "TRUE" else ""),
-                   vc.run_tlc_cfg("MC_FimSliverConv", MC, c, workers=16), c)
-        scripts = vc.gen_scripts(rep, "Gen_FimSliverConv_" + mode, "MC_FimSliverConv", GEN, c, max_obs=40, timeout=3400)
+                   vc.run_tlc_cfg("MC_FimSliverConv", MC, c, workers=16, dfs=True), c)      # in-memory queue: TLC 1.8's disk
+        # state queue fails ("fcnRcd is null" in StatePoolWriter) when it spills these large record states
+        scripts = vc.gen_scripts(rep, "Gen_FimSliverConv_" + mode, "MC_FimSliverConv", GEN, c, max_obs=40, timeout=3400, dfs=True)
         scripts = [[{"op": "Vocab"}] + s for s in scripts[:1]] + scripts[1:]
         vc.run_and_validate(rep, "conv", "harness.conv_adapter.run_script", "Trace_FimSliverConv", scripts, [{}],
                             {"convert": "every sliver of the family written and rebuilt from every nested element, and through dict/JSON",
